@@ -191,6 +191,29 @@ impl Check for C18 {
                 }
             }
         });
+        // (1b) sources whose channels equal their alpha, every level x every global alpha byte x every shader family
+        run.bound("alpha sweep", "256 levels (c = a) x 256 global alpha bytes x {solid, 1x1 image via the integer-translation shader, 1x1 image via the bilinear and nearest shaders, constant gradient} x {Src on transparent, SrcOver on white}".to_string());
+        run.par(256, |v, l| {
+            let v = v as u32;
+            let c = (v << 24) | (v << 16) | (v << 8) | v;
+            let un = if v == 0 { 0 } else { (v << 24) | 0x00ffffff };
+            let srcs: Vec<SrcSpec> = vec![
+                SrcSpec::Solid(c),
+                SrcSpec::Image { w: 1, h: 1, data: vec![c], repeat: false, bilinear: false, xf: IDENT },
+                SrcSpec::Image { w: 1, h: 1, data: vec![c], repeat: true, bilinear: true, xf: [0.5, 0., 0., 0.5, 0.25, 0.25] },
+                SrcSpec::Image { w: 1, h: 1, data: vec![c], repeat: false, bilinear: false, xf: [0.5, 0., 0., 0.5, 0.25, 0.25] },
+                SrcSpec::Linear { stops: vec![Stop { pos: 0.0, color: un }, Stop { pos: 1.0, color: un }], spread: Spr::Pad, p: [0., 0., 2., 0.] },
+            ];
+            for k in 0..256u32 {
+                let alpha = k as f32 / 255.0;
+                for src in &srcs {
+                    for (dst, mode) in [(Dst::Zero, BlendMode::Src), (Dst::White, BlendMode::SrcOver)] {
+                        let scene = Scene { w: 2, h: 1, dst, ops: vec![Op::FillRect(0., 0., 2., 1., src.clone(), Opts { mode, alpha, aa: true })] };
+                        one(run, 200_000 + v as usize, l, &scene, false);
+                    }
+                }
+            }
+        });
         // (4) conversions
         run.bound("conversions", "from_unpremultiplied_argb and From<Color> over 17^4 channel tuples".to_string());
         let ch: Vec<u8> = (0..17).map(|i| (i * 16).min(255) as u8).collect();
